@@ -553,6 +553,10 @@ int read_clu(struct in_buffer* b , struct msa** m)
                                         seq_ptr->name[i] = p[i];
                                 }
                                 seq_ptr->name[j] = 0;
+                                /* a name that did not fit was cut: the rest of it is still name, not sequence */
+                                while(j < line_len && !isspace((int)p[j])){
+                                        j++;
+                                }
                                 for(i = j;i < line_len;i++){
                                         if(p[i] > 0){
                                                 msa->letter_freq[(int)p[i]]++;
@@ -653,7 +657,12 @@ int read_msf(struct in_buffer* b,struct msa** m)
                                 //if(p){
                                 //LOG_MSG("Found bitsof seq %s", seq_ptr->name);
                                 p = line;
-                                j = strnlen(seq_ptr->name, MSA_NAME_LEN);
+                                /* the row name ends at the first white space; it can be longer than
+                                   the (possibly cut) name stored from the header */
+                                j = 0;
+                                while(j < line_len && !isspace((int)line[j])){
+                                        j++;
+                                }
                                 p += j;
                                 for(i = 0;i < line_len-j;i++){
                                         if(p[i] > 0){
